@@ -222,7 +222,7 @@ def gen_tables(ctx):
     return True
 
 
-def standard_check(ctx, prop, plan, monitors, theorems, corpus_dirs=(), rule="", extra_modules=("Rie.Props.Tables", "Rie.Props.FrontEndTable"), e2e=0):
+def standard_check(ctx, prop, plan, monitors, theorems, corpus_dirs=(), rule="", extra_modules=("Rie.Props.Tables",), e2e=0):
     thorough = ctx.tier == "thorough"
     ctx.trusted += ["correspondence: stackdrv (real rapidcore.SandboxBuilder stack in process, fake supervisor held to the C19 model, scripted HTTP actors, quiescent stepping) vs rie-oracle sys",
                     "regenerated state-machine tables (unitdrv tables) re-proved equal to the model programs by decide",
